@@ -65,7 +65,12 @@ SetToSortedSeq(Sx) == IF Sx = {} THEN <<>>
 (*   pfx   : -1, or the prefix of prefix-iteration mode (set by SeekPrefixGE)    *)
 (*   fwd   : the last call was a forward call                                    *)
 (*   sko/sk: kind and key of the seek that a TrySeekUsingNext flag may refer to  *)
-NewIt(lo, hi) == [lo |-> lo, hi |-> hi, st |-> "unpos", pos |-> 0, pfx |-> -1, fwd |-> TRUE, sk |-> 0, sko |-> "none"]
+(*   slo/shi: the caller's own bounds.  They differ from lo/hi only over a virtual   *)
+(*           table, where lo/hi are the caller's bounds intersected with the table's *)
+(*           bounds (VirtualReaderParams.ConstrainBounds): the caller (levelIter)    *)
+(*           seeks a file only with keys that do not lie beyond the file's bounds in *)
+(*           the direction of the seek                                               *)
+NewIt(lo, hi) == [lo |-> lo, hi |-> hi, slo |-> lo, shi |-> hi, st |-> "unpos", pos |-> 0, pfx |-> -1, fwd |-> TRUE, sk |-> 0, sko |-> "none"]
 
 UpOK(L, it, i) == i <= Len(L) /\ i >= 1 /\ (IF Bug = "UpperInclusive" THEN L[i][1] <= it.hi ELSE L[i][1] < it.hi)
 LoOK(L, it, i) == i >= 1 /\ i <= Len(L) /\ (IF Bug = "LowerExclusive" THEN L[i][1] > it.lo ELSE L[i][1] >= it.lo)
@@ -92,11 +97,11 @@ KeyOps == {"seekge", "seeklt", "seekprefixge"}
 
 (* the documented caller contract of base.InternalIterator *)
 Enabled(it, o, k) ==
-  CASE o = "first" -> it.lo = 0
-    [] o = "last" -> it.hi = R
-    [] o = "seekge" -> k >= it.lo /\ k <= it.hi
-    [] o = "seekprefixge" -> k >= it.lo /\ k <= it.hi /\ k < R
-    [] o = "seeklt" -> k >= it.lo /\ k <= it.hi
+  CASE o = "first" -> it.slo = 0
+    [] o = "last" -> it.shi = R
+    [] o = "seekge" -> k >= it.slo /\ k <= it.hi
+    [] o = "seekprefixge" -> k >= it.slo /\ k <= it.hi /\ k < R
+    [] o = "seeklt" -> k >= it.lo /\ k <= it.shi
     [] o = "next" -> (it.pfx < 0 /\ it.st \in {"at", "before"}) \/ (it.pfx >= 0 /\ it.st = "at")
     [] o = "prev" -> it.pfx < 0 /\ it.st \in {"at", "after"}
     [] o = "nextprefix" -> it.pfx < 0 /\ it.st = "at" /\ it.fwd
@@ -187,6 +192,7 @@ SuffixPre(L, ssuf) == /\ \A i, j \in 1..Len(L) : i # j => PfxOf(L[i][1]) # PfxOf
 (* the iterator bounds an sstable iterator effectively uses over a virtual table *)
 (* (VirtualReaderParams.ConstrainBounds); an inclusive upper bound is rank + 1   *)
 VUp(vp) == IF vp.vhiincl THEN vp.vhi + 1 ELSE vp.vhi
+NewItV(lo, hi, vp) == [NewIt(Max2(lo, vp.vlo), Min2(hi, VUp(vp))) EXCEPT !.slo = lo, !.shi = hi]
 
 (* CopySpan (sstable/copier.go): output contains every input entry inside the    *)
 (* span and only input entries, in order                                         *)
